@@ -85,8 +85,8 @@ def report_diff(ctx, what, cfg, d, x, exp, body, detail):
         sigs.setdefault('program-entry:build-unlisted:' + '+'.join(A.Sem.unlisted_fields(cfg, b) or ['none']), b)
     for s, t in sigs.items():
         viol(ctx, '%s:%s:%s' % (P, what, s), dict(detail, datum=t, config=A.concrete_cfg(cfg, d), X=x / d, body=body.text),
-                      '%s: the report for X=%g %s %r, which the configuration does not allow (%s)' % (
-                          what, x / d, 'carries' if s.startswith(('extra', 'program')) else 'lacks', t, s))
+                      '%s: the report for X=%g %s %r (%s)' % (
+                          what, x / d, 'carries, against the configuration,' if s.startswith(('extra', 'program')) else 'lacks the approved', t, s))
     return False
 
 
@@ -462,18 +462,19 @@ def explain_random(ctx, o, c, rec):
         viol(ctx, '%s:upload:no-report-although-approved-data' % P, detail,
                       'no report was posted for %s although approved data with rate >= X exists and X passes the sampling rate' % date)
         return
+    # a build whose entry the report carries is judged on program/version/Go version
+    # (C01's reading), a build the report leaves out on all five fields (C11's)
+    progs = set(A.btuple(b) for b in o['progs'])
+    three = ('program', 'version', 'gover')
     sigs = {}
     for t in sorted(data):
-        s = A.classify_datum(cfg, x, local, t, 'extra')
+        s = A.classify_datum(cfg, x, local, t, 'extra', three)
         if not s.endswith(':other'):
             sigs.setdefault(s, t)
     for t in sorted(local - data):
-        s = A.classify_datum(cfg, x, local, t, 'missing')
-        if s.endswith(':approved') or 'same-name' in s:
+        s = A.classify_datum(cfg, x, local, t, 'missing', three if t[0] in progs else None)
+        if s.endswith(':approved') or 'same-name' in s or 'value-differs' in s:
             sigs.setdefault(s, t)
-    # builds with unlisted GOOS/GOARCH only may be present or absent as a whole
-    sigs = {s: t for s, t in sigs.items() if not (s.split(':')[-1] in ('goos', 'goarch', 'goos+goarch') and 'build-unlisted' in s)}
-    progs = set(A.btuple(b) for b in o['progs'])
     for b in sorted(progs):
         unl = [f for f in A.Sem.unlisted_fields(cfg, b) if f in ('program', 'version', 'gover')]
         if unl:
